@@ -7,6 +7,7 @@ use crate::model::{Format, Model, Terminal};
 use crate::policy::PolKind;
 use crate::source::Script;
 use crate::util::B;
+use crate::fail;
 use proptest::prelude::*;
 use serde_derive::{Deserialize, Serialize};
 use serde_json::json;
@@ -154,9 +155,103 @@ fn classify_light(m: &Model, input: &[u8], cap: usize) -> bool {
             || input.windows(2).any(|w| w == b"\n\n"))
 }
 
-pub const RULE: &str = "cases = (input from {grammar-built FASTA documents, 1-3 byte mutations of them, byte soups over a structural alphabet}) x (capacity absolute 3..300 or relative to record extents/offsets/input length) x permissive policy x chunk/interrupt script x {next, records(), into_records()}; thorough adds the complete small-scope enumeration; sub-check huge-records: a few documents with one record of 8-18 MiB (beyond the doubling threshold of the standard policy) read with the default and with tiny capacities. Non-trivial = (>=1 record or an invalid start) and (a record or the leading blank region crosses a buffer refill, or CRLF present, or empty sequence, or missing final terminator, or blank lines). Distinct = hash(input, capacity, chunk script).";
+pub const RULE: &str = "cases = (input from {grammar-built FASTA documents, 1-3 byte mutations of them, byte soups over a structural alphabet}) x (capacity absolute 3..300 or relative to record extents/offsets/input length) x permissive policy x chunk/interrupt script x {next, records(), into_records()}; thorough adds the complete small-scope enumeration; sub-check huge-records: a few documents with one record of 8-18 MiB (beyond the doubling threshold of the standard policy) read with the default and with tiny capacities. Non-trivial = (>=1 record or an invalid start) and (a record or the leading blank region crosses a buffer refill, or CRLF present, or empty sequence, or missing final terminator, or blank lines). Distinct = hash(input, capacity, chunk script). Sub-check constructors: any input written to a temporary file and read through Reader::new (default 64 KiB capacity), from_path and from_path_with_capacity(3..5000): all three deliver the model's outcome.";
 
-pub const RULE_FQ: &str = "cases = (input from {grammar-built FASTQ documents with an optional defect (wrong start byte, wrong separator byte, length mismatch, truncation at any byte, dropped line) at a generated record index, 1-3 byte mutations, byte soups}) x (capacity absolute 3..300 or relative to record extents/offsets/input length) x permissive policy x chunk/interrupt script x {next, records(), into_records()}; thorough adds the complete small-scope enumeration. Groups mixing LF and CRLF between sequence and quality line are outside the claimed domain: the comparison stops there (class mixed-terminator-excluded). Non-trivial = (>=1 record or a format error) and (crosses a buffer refill, or CRLF, or missing final terminator, or blank lines). Distinct = hash(input, capacity, chunk script).";
+pub const RULE_FQ: &str = "cases = (input from {grammar-built FASTQ documents with an optional defect (wrong start byte, wrong separator byte, length mismatch, truncation at any byte, dropped line) at a generated record index, 1-3 byte mutations, byte soups}) x (capacity absolute 3..300 or relative to record extents/offsets/input length) x permissive policy x chunk/interrupt script x {next, records(), into_records()}; thorough adds the complete small-scope enumeration. Groups mixing LF and CRLF between sequence and quality line are outside the claimed domain: the comparison stops there (class mixed-terminator-excluded). Non-trivial = (>=1 record or a format error) and (crosses a buffer refill, or CRLF, or missing final terminator, or blank lines). Distinct = hash(input, capacity, chunk script). Sub-check constructors: any input written to a temporary file and read through Reader::new (default 64 KiB capacity), from_path and from_path_with_capacity(3..5000): all three deliver the model's outcome.";
+
+// ------------------------------------------------------------------------------------------------
+// the other constructors reach the same parser: new (default capacity), from_path, from_path_with_capacity
+
+#[derive(Clone, Debug, Serialize, Deserialize, Hash)]
+pub struct CtorCase {
+    pub input: B,
+    pub cap: usize,
+    /// the format (stored with the case so that a replay file is self-contained)
+    #[serde(default)]
+    pub fmt: Option<Format>,
+}
+
+pub struct Constructors(pub Format);
+
+impl Prop for Constructors {
+    type Case = CtorCase;
+    fn input_bytes<'a>(&self, c: &'a mut Self::Case) -> Option<&'a mut Vec<u8>> {
+        Some(&mut c.input.0)
+    }
+    fn strategy(&self, _tier: Tier) -> BoxedStrategy<CtorCase> {
+        let f = self.0;
+        boxed((prop_oneof![6 => gen::any_input(f, false), 1 => gen::big_input(f)], prop_oneof![3usize..64, 64usize..5000]).prop_map(move |(input, cap)| CtorCase { input, cap, fmt: Some(f) }))
+    }
+    fn check(&self, c: &CtorCase, ctx: &mut Ctx) -> CheckResult {
+        use crate::driver::{fa_err, fa_norm, fq_err, fq_norm, Out};
+        let fmt = c.fmt.unwrap_or(self.0);
+        let m = Model::build(fmt, &c.input);
+        if !m.recs.is_empty() {
+            ctx.nontrivial(c, c);
+        }
+        if c.input.len() < 3 {
+            ctx.class("file shorter than 3 bytes");
+        }
+        // a private file per worker thread, removed afterwards
+        let path = std::env::temp_dir().join(format!("seqio_verif_ctor_{}_{:?}", std::process::id(), std::thread::current().id()).replace(|ch: char| !ch.is_ascii_alphanumeric() && ch != '_', "_"));
+        if let Err(e) = std::fs::write(&path, &c.input.0) {
+            fail!("harness/tempfile", "cannot write {}: {}", path.display(), e);
+        }
+        let max = m.recs.len() + 4;
+        macro_rules! drain {
+            ($rdr:expr, $norm:ident, $err:ident) => {{
+                let mut r = $rdr;
+                let mut outs = Vec::new();
+                let mut after_end = 0;
+                while outs.len() < max + 3 && after_end < 3 {
+                    match r.next() {
+                        None => {
+                            outs.push(Out::End);
+                            after_end += 1;
+                        }
+                        Some(Ok(rec)) => outs.push(Out::Rec($norm(&rec))),
+                        Some(Err(e)) => outs.push(Out::Err($err(&e))),
+                    }
+                }
+                outs
+            }};
+        }
+        let mut results: Vec<(&str, Vec<Out>)> = Vec::new();
+        match fmt {
+            Format::Fasta => {
+                use seq_io::fasta::Reader;
+                results.push(("new", drain!(Reader::new(&c.input[..]), fa_norm, fa_err)));
+                match Reader::from_path(&path) {
+                    Ok(r) => results.push(("from_path", drain!(r, fa_norm, fa_err))),
+                    Err(e) => fail!("fasta/from_path/open-failed", "from_path({}) failed: {}", path.display(), e),
+                }
+                match Reader::from_path_with_capacity(&path, c.cap) {
+                    Ok(r) => results.push(("from_path_with_capacity", drain!(r, fa_norm, fa_err))),
+                    Err(e) => fail!("fasta/from_path_with_capacity/open-failed", "open failed: {}", e),
+                }
+            }
+            Format::Fastq => {
+                use seq_io::fastq::Reader;
+                results.push(("new", drain!(Reader::new(&c.input[..]), fq_norm, fq_err)));
+                match Reader::from_path(&path) {
+                    Ok(r) => results.push(("from_path", drain!(r, fq_norm, fq_err))),
+                    Err(e) => fail!("fastq/from_path/open-failed", "from_path({}) failed: {}", path.display(), e),
+                }
+                match Reader::from_path_with_capacity(&path, c.cap) {
+                    Ok(r) => results.push(("from_path_with_capacity", drain!(r, fq_norm, fq_err))),
+                    Err(e) => fail!("fastq/from_path_with_capacity/open-failed", "open failed: {}", e),
+                }
+            }
+        }
+        let _ = std::fs::remove_file(&path);
+        for (name, outs) in results {
+            if let Err(f) = crate::light::compare(&m, &outs, false) {
+                return Err(crate::engine::Failure::new(f.sig.replace("/read/", &format!("/{}/", name)), format!("constructor {}: {}", name, f.msg)));
+            }
+        }
+        Ok(())
+    }
+}
 
 pub fn run_c02(tier: Tier) -> i32 {
     let mut run = Run::new("C02", tier, "exploration");
@@ -167,6 +262,9 @@ pub fn run_c02(tier: Tier) -> i32 {
     let h = super::huge::HugeModel(Format::Fastq);
     run.replays("huge-records", &h);
     run.generated("huge-records", &h, tier.pick(6, 60));
+    let k = Constructors(Format::Fastq);
+    run.replays("constructors", &k);
+    run.generated("constructors", &k, tier.pick(20_000, 300_000));
     run.finish(
         RULE_FQ,
         &[
@@ -177,7 +275,7 @@ pub fn run_c02(tier: Tier) -> i32 {
 }
 
 pub fn replay_c02(run: &mut Run, file: &std::path::Path) -> Option<bool> {
-    run.replay_file("model-differential", &ReadModel(Format::Fastq), file, true).or_else(|| run.replay_file("huge-records", &super::huge::HugeModel(Format::Fastq), file, true))
+    run.replay_file("model-differential", &ReadModel(Format::Fastq), file, true).or_else(|| run.replay_file("huge-records", &super::huge::HugeModel(Format::Fastq), file, true)).or_else(|| run.replay_file("constructors", &Constructors(Format::Fastq), file, true))
 }
 
 pub fn run(tier: Tier) -> i32 {
@@ -189,6 +287,9 @@ pub fn run(tier: Tier) -> i32 {
     let h = super::huge::HugeModel(Format::Fasta);
     run.replays("huge-records", &h);
     run.generated("huge-records", &h, tier.pick(6, 60));
+    let k = Constructors(Format::Fasta);
+    run.replays("constructors", &k);
+    run.generated("constructors", &k, tier.pick(20_000, 300_000));
     run.finish(
         RULE,
         &[
@@ -202,4 +303,5 @@ pub fn replay(run: &mut Run, file: &std::path::Path) -> Option<bool> {
     run.replay_file("model-differential", &ReadModel(Format::Fasta), file, true)
         .or_else(|| run.replay_file("exhaustive-small-scope", &ReadModel(Format::Fasta), file, true))
         .or_else(|| run.replay_file("huge-records", &super::huge::HugeModel(Format::Fasta), file, true))
+        .or_else(|| run.replay_file("constructors", &Constructors(Format::Fasta), file, true))
 }
